@@ -6,7 +6,7 @@
 #include <stdint.h>
 #include <inttypes.h>
 #include <time.h>
-extern const struct dispatch_data_format_type_s _dispatch_data_format_type_none, _dispatch_data_format_type_base64;
+extern const struct dispatch_data_format_type_s _dispatch_data_format_type_none, _dispatch_data_format_type_base64, _dispatch_data_format_type_base32;
 dispatch_data_t dispatch_data_create_with_transform(dispatch_data_t, const struct dispatch_data_format_type_s*, const struct dispatch_data_format_type_s*);
 dispatch_queue_attr_t dispatch_queue_attr_make_with_overcommit(dispatch_queue_attr_t, bool);
 
@@ -31,11 +31,12 @@ int main(void){
     else if(!strcmp(tok,"W")){ uint64_t b=strtoull(strtok(NULL," \n"),NULL,10); int64_t d=strtoll(strtok(NULL," \n"),NULL,10);
       struct timespec ts={ (time_t)(b/1000000000ull), (long)(b%1000000000ull) };
       printf("%" PRIu64 "\n",(uint64_t)dispatch_walltime(&ts,d)); }
-    else if(!strcmp(tok,"E")||!strcmp(tok,"D")){ int enc=tok[0]=='E'; unsigned char buf[1<<15]; size_t n=parsehex(strtok(NULL," \n"),buf);
+    else if(!strcmp(tok,"E")||!strcmp(tok,"D")||!strcmp(tok,"E32")||!strcmp(tok,"D32")){ int enc=tok[0]=='E'; int b32 = tok[1]=='3'; unsigned char buf[1<<15]; size_t n=parsehex(strtok(NULL," \n"),buf);
       if(n==0){ puts(enc?"-":"ok -"); continue; }   // the API returns the empty object for empty input
       dispatch_data_t d=dispatch_data_create(buf,n,NULL,DISPATCH_DATA_DESTRUCTOR_DEFAULT);
-      dispatch_data_t r= enc? dispatch_data_create_with_transform(d,&_dispatch_data_format_type_none,&_dispatch_data_format_type_base64)
-                            : dispatch_data_create_with_transform(d,&_dispatch_data_format_type_base64,&_dispatch_data_format_type_none);
+      const struct dispatch_data_format_type_s *fmt = b32 ? &_dispatch_data_format_type_base32 : &_dispatch_data_format_type_base64;
+      dispatch_data_t r= enc? dispatch_data_create_with_transform(d,&_dispatch_data_format_type_none,fmt)
+                            : dispatch_data_create_with_transform(d,fmt,&_dispatch_data_format_type_none);
       if(!r){ puts("NULL"); continue; }
       size_t sz=dispatch_data_get_size(r);
       if(enc){ print_data_hex(r); puts(""); }
